@@ -68,6 +68,11 @@ func makeReflectType(rt rtype) value {
 	return iface{rtypeType, rt}
 }
 
+func ext۰reflect۰rtype۰Comparable(fr *frame, args []value) value {
+	// Signature: func (t reflect.rtype) bool
+	return types.Comparable(args[0].(rtype).t)
+}
+
 func ext۰reflect۰rtype۰Bits(fr *frame, args []value) value {
 	// Signature: func (t reflect.rtype) int
 	rt := args[0].(rtype).t
@@ -555,6 +560,7 @@ func initReflect(i *interpreter) {
 
 	i.rtypeMethods = methodSet{
 		"Bits":      newMethod(i.reflectPackage, rtypeType, "Bits"),
+		"Comparable": newMethod(i.reflectPackage, rtypeType, "Comparable"),
 		"Elem":      newMethod(i.reflectPackage, rtypeType, "Elem"),
 		"Field":     newMethod(i.reflectPackage, rtypeType, "Field"),
 		"In":        newMethod(i.reflectPackage, rtypeType, "In"),
